@@ -160,7 +160,11 @@ func family() []entry {
 	// named types of each primitive kind
 	add(typeOf[MyInt]())
 	add(typeOf[MyStr]())
+	add(typeOf[MyBool]())
+	add(typeOf[MyF]())
+	add(typeOf[*MyInt]())
 	add(typeOf[Named]())
+	add(typeOf[**int]())
 	// slices
 	add(typeOf[[]int]())
 	add(typeOf[[]string]())
@@ -191,7 +195,8 @@ func family() []entry {
 	add(typeOf[cty.Value]())
 	add(typeOf[WithDyn]())
 	add(typeOf[*WithDyn]())
-	add(typeOf[DynNest]())
+	add(typeOf[*cty.Value]())
+	f = append(f, entry{t: typeOf[DynNest](), gen: genDynNest})
 	f = append(f, entry{t: typeOf[[]cty.Value](), gen: genDynSlice})
 	f = append(f, entry{t: typeOf[map[string]cty.Value](), gen: genDynMap})
 	// arrays and big numbers: explicit types (ImpliedType has no mapping for them)
@@ -200,6 +205,9 @@ func family() []entry {
 	addX(typeOf[[0]bool](), cty.List(cty.Bool))
 	addX(typeOf[[2][]int8](), cty.List(cty.List(cty.Number)))
 	addX(typeOf[*[2]Inner](), cty.List(shapeType(typeOf[Inner]())))
+	addX(typeOf[[2]*int](), cty.List(cty.Number))
+	addX(typeOf[[]big.Float](), cty.List(cty.Number))
+	addX(typeOf[map[string]*big.Int](), cty.Map(cty.Number))
 	addX(typeOf[big.Int](), cty.Number)
 	addX(typeOf[big.Float](), cty.Number)
 	addX(typeOf[*big.Int](), cty.Number)
@@ -288,6 +296,23 @@ func genDynMap(r *core.Rand) reflect.Value {
 		m[gen.GoKey(r)] = gen.Value(r, ty, gen.ValueOpts{UnknownPct: 10, NullPct: 10, Refined: true, MaxLen: 2})
 	}
 	v.Set(reflect.ValueOf(m))
+	return v
+}
+
+// genDynNest: the dynamic leaves of the members of M share their types (a cty
+// map has one element type).
+func genDynNest(r *core.Rand) reflect.Value {
+	v := gen.GoValue(r, typeOf[DynNest](), gen.GoValueOpts{NilPct: 15})
+	d := v.Addr().Interface().(*DynNest)
+	if len(d.M) > 0 {
+		tv, tw := gen.Type(r, 2, gen.TypeOpts{}).Cty(), gen.Type(r, 2, gen.TypeOpts{}).Cty()
+		o := gen.ValueOpts{UnknownPct: 10, NullPct: 10, Refined: true, MaxLen: 2}
+		for _, k := range sortedKeys(d.M) {
+			e := d.M[k]
+			e.V, e.W = gen.Value(r, tv, o), gen.Value(r, tw, o)
+			d.M[k] = e
+		}
+	}
 	return v
 }
 
